@@ -108,6 +108,8 @@ class CallMixin:
             if hint is not None:
                 # "A|B": a local re-bound to values of different types (e.g. `edges = set(edges)`): the first alternative that fits
                 alts = [self.parse_ty(h) for h in hint.split("|")]
+                if v.ty == T.TUP and alts[0] == T.Bag(T.INT):
+                    v = self.bag_of(v, p)          # a list of node labels whose order does not matter from here on
                 if not any(v.ty == a for a in alts):
                     for a in alts:
                         try:
@@ -513,6 +515,41 @@ class CallMixin:
             raise Unsupported(f"{e.func.id} with these arguments")
         return self.ev(e.args[0], p)
 
+    def bi_any(self, e, p):
+        """any(cond(v) for v in d.values()) in code: some key of d whose value satisfies the condition"""
+        if len(e.args) == 1 and isinstance(e.args[0], ast.GeneratorExp) and not e.keywords and len(e.args[0].generators) == 1 and not e.args[0].generators[0].ifs:
+            g = e.args[0].generators[0]
+            it = g.iter
+            if isinstance(it, ast.Call) and isinstance(it.func, ast.Attribute) and it.func.attr == "values" and not it.args and isinstance(g.target, ast.Name):
+                m = self.ev(it.func.value, p)
+                if isinstance(m.ty, T.Map) and m.ty.v.scalar:
+                    k = fresh("anyk", m.ty.k.sort())
+                    saved = p.env.get(g.target.id)
+                    p.env[g.target.id] = T.scalar(m.ty.v, m.val[k])
+                    try:
+                        c = self.truth(self.ev(e.args[0].elt, p), p)
+                    finally:
+                        if saved is None:
+                            p.env.pop(g.target.id, None)
+                        else:
+                            p.env[g.target.id] = saved
+                    return T.sv_bool(z3.Exists([k], z3.And(m.dom[k], c)))
+        raise Unsupported("any() in this form")
+
+    def bi_next(self, e, p):
+        """next(iter(d)): some key of the dict / member of the set (StopIteration when it is empty); which one is not modelled"""
+        if len(e.args) == 1 and isinstance(e.args[0], ast.Call) and isinstance(e.args[0].func, ast.Name) and e.args[0].func.id == "iter" and len(e.args[0].args) == 1:
+            c = self.ev(e.args[0].args[0], p)
+            if isinstance(c.ty, T.Map):
+                c = T.scalar(T.Set(c.ty.k), c.dom)
+            if isinstance(c.ty, T.Set):
+                x = fresh("first", c.ty.e.sort())
+                y = fresh("y", c.ty.e.sort())
+                self._raise_if(p, z3.ForAll([y], z3.Not(c.t[y]), patterns=[c.t[y]]), "StopIteration", f"line {e.lineno}")
+                self._assume(p, c.t[x])
+                return T.scalar(c.ty.e, x)
+        raise Unsupported("next() in this form")
+
     def bi_str(self, e, p):
         v = self._one(e, p)
         if v.ty in (T.INT, T.BOOL):
@@ -586,6 +623,14 @@ class CallMixin:
     def bi_set(self, e, p):
         if not e.args:
             return SV(T.EMPTYSET)
+        a = e.args[0]
+        if len(e.args) == 1 and isinstance(a, ast.Call) and isinstance(a.func, ast.Attribute) and a.func.attr == "chain" and isinstance(a.func.value, ast.Name) \
+                and a.func.value.id == "itertools" and len(a.args) == 1 and isinstance(a.args[0], ast.Starred) and not a.keywords:
+            # set(itertools.chain(*B)) for a list B of node tuples: all labels occurring in them (axioms members_intro / members_elim)
+            b = self.ev(a.args[0].value, p)
+            if isinstance(b.ty, T.Bag) and b.ty.e == T.TUP:
+                return T.scalar(T.Set(T.INT), TH.members(b.t))
+            raise Unsupported(f"itertools.chain(*x) over {b.ty}")
         v = self._one(e, p)
         return self.as_set(v, p)
 
@@ -794,6 +839,8 @@ class CallMixin:
             o = args[0]
             if o.ty == T.EMPTYLIST:
                 return T.sv_none()
+            if isinstance(o.ty, T.Set) and o.ty.e == rt.e:
+                o = self.coerce(o, rt)          # extend(a_set): every member once (bagof)
             if not (isinstance(o.ty, T.Bag) and o.ty.e == rt.e):
                 raise Unsupported(f"extend of {rt} with {o.ty}")
             x = fresh("x", rt.e.sort())
@@ -1145,6 +1192,9 @@ class CallMixin:
         x, vals, conds, defs = self._bound_eval(target, et, list(ifs) + [e.value], p, e.lineno, lambda xx: src.t[xx] >= 1)
         cond_terms = [self.truth(v, p) for v in vals[:-1]]
         fx = vals[-1]
+        if fx.ty == T.EMPTYSET:
+            # {k: set() for k in ...}: a table of empty sets; the element type of the sets is taken to be the key type (a node -> nodes table)
+            fx = T.scalar(T.Set(et), z3.K(et.sort(), z3.BoolVal(False)))
         c = z3.And(cond_terms) if cond_terms else z3.BoolVal(True)
         inb = src.t[x] >= 1
         self._close_defs(p, x, defs, inb)
